@@ -165,6 +165,13 @@ def shell_pairs():
     # with an explicit signature the built-in strategy (args, env, deps...) is replaced (docs/buildsystem.rst)
     add("sig-fixed-arg", "args (explicit signature)", setarg(sa, 4, "abx"), a=sa, relevant=False)
     add("sig-fixed-env", "env (explicit signature)", mut(sa, env=[("K1", "V9"), ("AB", "C")]), a=sa, relevant=False)
+    # ... but only the built-in strategy for args/env/deps: name, declared inputs/outputs and flags stay part of it
+    add("sig-fixed-name", "name (explicit signature)", mut(sa, name="U"), a=sa)
+    add("sig-fixed-input-added", "inputs (explicit signature)", mut(sa, inputs=["s1", "s2", "<vi>", "s3"]), a=sa)
+    add("sig-fixed-input-0", "inputs (explicit signature)", mut(sa, inputs=["s3", "s2", "<vi>"]), a=sa)
+    add("sig-fixed-output-added", "outputs (explicit signature)", mut(sa, outputs=["o1", "o2", "<vo>", "o3"]), a=sa)
+    add("sig-fixed-allow-missing-inputs", "allow-missing-inputs (explicit signature)", mut(sa, attr_allow_missing_inputs="true"), a=sa)
+    add("sig-fixed-always-out-of-date", "always-out-of-date (explicit signature)", mut(sa, attr_always_out_of_date="true"), a=sa)
     # a minimal command (one file input, one file output, no deps) under each flag: with
     # allow-modified-outputs the engine-side "update if outputs exist" shortcut is reachable
     S = {"name": "T", "tool": "shell", "inputs": ["s1"], "outputs": ["o1"],
